@@ -3,7 +3,7 @@ CONSTANTS
   Keys = {1, 2}
   Vals = {1, 2}
   MaxChain = 2
-  MaxWrites = 6
+  MaxWrites = 5
   MaxReopens = 1
   DevF7 = FALSE
 INVARIANTS TypeOK ReopenSeesPersisted ChainMatchesFile ChainBounded AgesOK MemoryCoversFile FilterSound
